@@ -195,7 +195,7 @@ def load_known(prop):
     return [k for k in json.load(open(path)) if k.get("property") == prop and k.get("status") == "known"]
 
 
-def finish(prop, tier, t0, results, level_rule, assumptions, extra=None, replays_subdir=None):
+def finish(prop, tier, t0, results, level_rule, assumptions, extra=None, replays_subdir=None, extra_viols=()):
     """Aggregate, write evidence, print verdict lines, exit."""
     seed = int(os.environ.get("VERIF_SEED", "0") or 0)
     known = load_known(prop)
@@ -258,6 +258,17 @@ def finish(prop, tier, t0, results, level_rule, assumptions, extra=None, replays
                 f.write(body)
         lines.append("VIOLATION property=%s replay=%s" % (prop, dst))
         lines.append("  # %s" % text)
+    for (text, rp) in extra_viols:
+        if text.startswith("INTERNAL"):
+            internal.append(text)
+            continue
+        k = next((k for k in known if re.search(k["signature"], text)), None)
+        if k:
+            lines.append("KNOWN-FINDING: property=%s %s" % (prop, k.get("what", k["signature"])))
+            continue
+        nviol += 1
+        lines.append("VIOLATION property=%s replay=%s" % (prop, rp))
+        lines.append("  # %s" % text[:700])
     cov = dict(
         states=tot["states"], transitions=tot["transitions"],
         traces_validated_against_impl=tot["executions"],
